@@ -25,6 +25,8 @@ pub mod qsroots;
 pub use qsroots::*;
 pub mod chains;
 pub use chains::*;
+pub mod group;
+pub use group::*;
 pub mod bnspec;
 pub use bnspec::*;
 pub mod factoring;
